@@ -50,6 +50,18 @@ INADDR == <<"i", "n", "-", "a", "d", "d", "r">>
 ARPA == <<"a", "r", "p", "a">>
 IP6 == <<"i", "p", "6">>
 COM == <<"c", "o", "m">>
+(* a genuinely non-ASCII label, U+00E4 r p a, and its correct ACE form *)
+AUML_RPA == <<"<00E4>", "r", "p", "a">>
+ACE_AUML_RPA == <<"x", "n", "-", "-", "r", "p", "a", "-", "p", "l", "a">>
+
+(* ACE alias of an all-ASCII label l: "xn--" l "-" is what idna.ToASCII /       *)
+(* ToUnicode map back to l itself (Punycode with an empty non-basic part).  It  *)
+(* is a different DNS name, so it is never an octet, a nibble or a suffix      *)
+(* label. *)
+Ace(l) == <<"x", "n", "-", "-">> \o l \o <<"-">>
+(* the j-th label from the right (1 = last) in its ACE-alias form *)
+AceAt(n, j) == IF j = 0 \/ j > Len(n) THEN n
+               ELSE [n EXCEPT ![Len(n) - j + 1] = Ace(@)]
 Shapes4 == <<
     <<INADDR, ARPA>>,
     <<MapLabel(Upper, INADDR), MapLabel(Upper, ARPA)>>,
@@ -66,7 +78,13 @@ Shapes4 == <<
     <<INADDR, ARPA, <<"x">>>>,
     <<INADDR, <<"x">>, ARPA>>,
     <<IP6, ARPA>>,
-    <<>> >>
+    <<>>,
+    <<INADDR, AUML_RPA>>,
+    <<INADDR, ACE_AUML_RPA>>,
+    <<<<"i", "n", "<000D>", "a", "d", "d", "r">>, ARPA>>,
+    <<<<"1", "<000E>">> \o INADDR, ARPA>>,
+    <<INADDR \o <<"<000E>">> \o ARPA>>,
+    <<INADDR, <<"a", "r", "p", "<0001>">>>> >>
 Shapes6 == <<
     <<IP6, ARPA>>,
     <<MapLabel(Upper, IP6), MapLabel(Upper, ARPA)>>,
@@ -83,9 +101,15 @@ Shapes6 == <<
     <<IP6, ARPA, <<"x">>>>,
     <<IP6, <<"x">>, ARPA>>,
     <<INADDR, ARPA>>,
-    <<>> >>
+    <<>>,
+    <<IP6, AUML_RPA>>,
+    <<IP6, ACE_AUML_RPA>>,
+    <<<<"i", "p", "<0016>">>, ARPA>>,
+    <<<<"a", "<000E>">> \o IP6, ARPA>>,
+    <<IP6 \o <<"<000E>">> \o ARPA>>,
+    <<<<"<0009>", "p", "6">>, ARPA>> >>
 Shapes(side) == IF side = 4 THEN Shapes4 ELSE Shapes6
-NShapes == 16
+NShapes == 22
 
 (* Leading labels for extraction.  Lead 1 is "none". *)
 X63 == Rep("x", 63)
@@ -105,8 +129,10 @@ Leads == <<
     <<L1("<212A>")>>,
     <<L1("1"), INADDR, ARPA>>,
     <<L1("1"), IP6, ARPA>>,
-    <<L2("*", "x"), L1("2")>> >>
-NLeads == 16
+    <<L2("*", "x"), L1("2")>>,
+    <<<<"x", "n", "-", "-", "9", "c", "a">>>>,
+    <<Ace(L1("1"))>> >>
+NLeads == 18
 
 (* Long nibble runs: label i of a run is the nibble (7i mod 16) so that a      *)
 (* shifted or swapped position changes the value; position bp (if any) holds   *)
@@ -117,7 +143,8 @@ Run(n, bp, bl) == Force([i \in 1..n |-> IF i = bp THEN bl ELSE RunLabel(i)], n)
 ----------------------------------------------------------------------------
 Cfg(side, shape, lead, dots, tab, max, bn, bp, bl) ==
     [side |-> side, shape |-> shape, lead |-> lead, dots |-> dots, tab |-> tab, max |-> max,
-     bn |-> bn, bp |-> bp, bl |-> bl]
+     bn |-> bn, bp |-> bp, bl |-> bl, ace |-> 0]
+WithAce(c, j) == [c EXCEPT !.ace = j]
 Plain(side, shape, lead, dots, tab, max) == Cfg(side, shape, lead, dots, tab, max, 0, 0, <<>>)
 
 (* Bounds per tier: the wide table up to WideMax labels, the reduced one up to *)
@@ -141,6 +168,10 @@ Configs(side) ==
     \* leading labels (extraction)
     \cup {Plain(side, 1, ld, 0, VarTab, VarMax) : ld \in LeadSet}
     \cup {Plain(side, sh, ld, d, "small", 2) : sh \in {2, 4}, ld \in LeadSet \cap {2, 6, 10, 11, 14}, d \in 0..1}
+    \* ACE aliases: each of the last labels (suffix labels and the body labels next to them)
+    \* replaced by its "xn--<label>-" form
+    \cup {WithAce(Plain(side, sh, ld, d, VarTab, VarMax), j) :
+             sh \in {1, 2}, ld \in {1} \cup (LeadSet \cap {2}), d \in 0..1, j \in 1..(2 + VarMax)}
     \* long nibble runs: every body up to 4 labels before a 30-run (lengths 30..34) ...
     \cup (IF side = 6 THEN
             {Cfg(6, 1, 1, 0, DeepTab, WideMax, 30, 0, <<>>)}
@@ -150,11 +181,14 @@ Configs(side) ==
             \* ... and runs under the other shapes, dots and leads
             \cup {Cfg(6, sh, 1, d, "small", 1, n, 0, <<>>) : sh \in {1, 2, 3, 4, 9, 15}, d \in 0..2, n \in 30..33}
             \cup {Cfg(6, 1, ld, 0, "small", 1, n, 0, <<>>) : ld \in LeadSet, n \in 30..33}
+            \cup UNION {{WithAce(Cfg(6, 1, 1, d, "small", 1, n, 0, <<>>), j) :
+                           j \in {1, 2, 3, 4, 18, n + 1, n + 2, n + 3}, d \in 0..1} : n \in 31..32}
           ELSE
             \* four octets with more in front: longest-suffix logic of extraction
             {Cfg(4, 1, 1, 0, DeepTab, 3, 3, 0, <<>>)}
             \* ... and full four-octet names before every shape, with and without a dot
-            \cup {Cfg(4, sh, 1, d, "small", 1, 3, 0, <<>>) : sh \in 2..NShapes, d \in 0..1})
+            \cup {Cfg(4, sh, 1, d, "small", 1, 3, 0, <<>>) : sh \in 2..NShapes, d \in 0..1}
+            \cup {WithAce(Cfg(4, 1, 1, d, "small", 1, 3, 0, <<>>), j) : j \in 1..6, d \in 0..1})
 
 (* For side 4 the "run" is a fixed tail of bn octet labels 1.2.3 ... *)
 Base(c) == IF c.bn = 0 THEN <<>>
@@ -180,7 +214,7 @@ Spec == Init /\ [][Next]_nvars
 
 RECURSIVE AddDots(_, _)
 AddDots(n, d) == IF d = 0 THEN n ELSE AddDots(Dotted(n), d - 1)
-Name == LET core == Leads[cf.lead] \o body \o Base(cf) \o Shapes(cf.side)[cf.shape]
+Name == LET core == Leads[cf.lead] \o AceAt(body \o Base(cf) \o Shapes(cf.side)[cf.shape], cf.ace)
         IN AddDots(IF Len(core) = 0 THEN << <<>> >> ELSE core, cf.dots)
 
 ----------------------------------------------------------------------------
@@ -197,7 +231,7 @@ VecOf(n, a, p, e) ==
         pfx |-> Res(p),
         ext |-> Res(e),            \* if the domain is valid (see dom)
         dom |-> DomainOK(StripDot(n)),
-        ascii |-> IsAsciiName(n)]
+        ascii |-> IsAsciiName(n) /\ ~HasAceLabel(n)]
 Vec == LET n == Name c == Canon(n) IN VecOf(n, AddrOfCanon(c), PrefixOfCanon(c), ExtractOfCanon(c, TRUE))
 Emit == IsName => CSVWrite("%1$s", <<ToJson(Vec)>>, "name_vectors.ndjson")
 
